@@ -206,12 +206,21 @@ def body_fullrank(E, n, m, ndirs):
     from .. import loader
     np = E.np
     kk = min(n, m)
-    U = E.mat('U', m, kk)
     sv = E.vec('sv', kk, lo=0, hi=10 ** 6)
     Vt = E.mat('Vt', kk, n)
+    if m == 2 and kk == 2:
+        # every 2x2 orthogonal matrix is a rotation or a reflection: two symbols and one constraint instead of four and three
+        c_, s_ = E.real('Uc', lo=-1, hi=1), E.real('Us', lo=-1, hi=1)
+        E.assume(E.eq(c_ * c_ + s_ * s_, 1, tol=1e-6))
+        refl = E.real('Urefl', lo=-1, hi=1)
+        E.assume(E.any([refl == 1, refl == -1]))
+        U = E.arr([[c_, -s_ * refl], [s_, c_ * refl]], 'f') if E.symbolic else np.array([[c_, -s_ * refl], [s_, c_ * refl]], dtype=float)
+    else:
+        U = E.mat('U', m, kk)
     for i in range(kk):
         for j in range(i, kk):
-            E.assume(E.eq(np.dot(U[:, i], U[:, j]), 1 if i == j else 0, tol=1e-6))
+            if not (m == 2 and kk == 2):
+                E.assume(E.eq(np.dot(U[:, i], U[:, j]), 1 if i == j else 0, tol=1e-6))
             E.assume(E.eq(np.dot(Vt[i, :], Vt[j, :]), 1 if i == j else 0, tol=1e-6))
     for i in range(kk - 1):
         E.assume(sv[i] >= sv[i + 1])
